@@ -177,6 +177,13 @@ def cases(run, rng):
             for t in ("molden", "molekel", "wfn", "wfx", "fchk"):
                 for allow in (False, True):
                     tasks.append((p, f, t, not sel, rng.random() < 0.5, allow, False, rng.random() < 0.5))
+    # inputs that lack an attribute the target requires (GRO / CHARMM files have no atomic numbers), with and without -c, onto an
+    # existing output: a pre-flight rejection either way
+    for f in ("gromacs", "charmm"):
+        for p, sel in sorted(by.get(f, []), key=lambda x: os.path.getsize(x[0]))[: run.pick(1, 3)]:
+            for t in ("xyz", "poscar", "cube", "sdf"):
+                for allow in (False, True):
+                    tasks.append((p, f, t, not sel, False, allow, False, True))
     # symbolic links: the format is derived from the name the user gave, not from where the link points
     for f in ("xyz", "mol2", "poscar", "fchk", "sdf"):
         for p, sel in sorted(by.get(f, []), key=lambda x: os.path.getsize(x[0]))[: run.pick(1, 3)]:
